@@ -198,6 +198,21 @@ pub struct Program {
 	/// `#[avro_schema(namespace = ..)]` on defs of any kind: (def index, namespace)
 	#[serde(default)]
 	pub ns_attr: Vec<(usize, String)>,
+	/// raw identifiers (`r#type`): the keyword is given bare; the Avro / serde name is the keyword
+	#[serde(default)]
+	pub raw: Vec<RawName>,
+}
+
+#[derive(Clone, Debug, PartialEq, Eq, Hash, Serialize, Deserialize)]
+pub enum RawName {
+	/// the type defs[i] is called `r#<kw>`
+	Type(usize, String),
+	/// field k of struct defs[i]
+	Field(usize, usize, String),
+	/// symbol k of the unit-only enum defs[i]
+	Symbol(usize, usize, String),
+	/// the variant at Rust position p of the union enum defs[i]
+	Variant(usize, usize, String),
 }
 
 fn field_name(i: usize) -> String {
@@ -212,7 +227,57 @@ pub struct Placed<'p> {
 }
 
 impl<'p> Placed<'p> {
+	fn raw_type(&self, i: usize) -> Option<&str> {
+		self.p.raw.iter().find_map(|r| match r {
+			RawName::Type(d, kw) if *d == i => Some(kw.as_str()),
+			_ => None,
+		})
+	}
+	/// (Rust identifier, Avro / serde name) of field k of struct i
+	pub fn field_names(&self, i: usize, k: usize) -> (String, String) {
+		for r in &self.p.raw {
+			if let RawName::Field(d, f, kw) = r {
+				if *d == i && *f == k {
+					return (format!("r#{kw}"), kw.clone());
+				}
+			}
+		}
+		(field_name(k), field_name(k))
+	}
+	/// (Rust identifier, Avro / serde name) of symbol k of unit-only enum i
+	pub fn symbol_names(&self, i: usize, k: usize) -> (String, String) {
+		for r in &self.p.raw {
+			if let RawName::Symbol(d, f, kw) = r {
+				if *d == i && *f == k {
+					return (format!("r#{kw}"), kw.clone());
+				}
+			}
+		}
+		let s = ((b'A' + k as u8) as char).to_string();
+		(s.clone(), s)
+	}
+	/// (Rust identifier, name without `r#`) of the variant at position p of union enum i
+	pub fn variant_names(&self, i: usize, p: usize) -> (String, String) {
+		for r in &self.p.raw {
+			if let RawName::Variant(d, f, kw) = r {
+				if *d == i && *f == p {
+					return (format!("r#{kw}"), kw.clone());
+				}
+			}
+		}
+		(format!("V{p}"), format!("V{p}"))
+	}
+	/// the identifier without `r#`: what names in the schema are made of
+	pub fn avro_ident(&self, i: usize) -> String {
+		match self.raw_type(i) {
+			Some(kw) => kw.to_owned(),
+			None => self.ident(i),
+		}
+	}
 	pub fn ident(&self, i: usize) -> String {
+		if let Some(kw) = self.raw_type(i) {
+			return format!("r#{kw}");
+		}
 		match &self.p.defs[i] {
 			Def::Struct { ident: Some(id), .. } => id.clone(),
 			Def::Generic { .. } => format!("G{i}"),
@@ -258,7 +323,7 @@ impl<'p> Placed<'p> {
 	pub fn fullname(&self, i: usize) -> String {
 		let name = match &self.p.defs[i] {
 			Def::Struct { name: Some(n), .. } => n.clone(),
-			_ => self.ident(i),
+			_ => self.avro_ident(i),
 		};
 		Self::join(&self.ns(i), &name)
 	}
@@ -506,7 +571,7 @@ impl<'p> Placed<'p> {
 		out
 	}
 	fn variant_owned_name(&self, owner: usize, variant_pos: usize) -> String {
-		Self::join(&self.ns(owner), &format!("{}.V{variant_pos}", self.ident(owner)))
+		Self::join(&self.ns(owner), &format!("{}.{}", self.avro_ident(owner), self.variant_names(owner, variant_pos).1))
 	}
 	/// positions of the data variants in the Rust enum (the unit variant takes one position)
 	pub fn variant_positions(n: usize, unit_at: Option<usize>) -> Vec<usize> {
@@ -754,7 +819,7 @@ impl<'p> Placed<'p> {
 				s.push_str(&format!("{vis}struct {id}{decl_lt} {{\n"));
 				for (k, f) in fields.iter().enumerate() {
 					let (a, t) = self.field_src(f, lt);
-					s.push_str(&format!("\t{a}{vis}{}: {t},\n", field_name(k)));
+					s.push_str(&format!("\t{a}{vis}{}: {t},\n", self.field_names(i, k).0));
 				}
 				s.push_str("}\n");
 				s.push_str(&format!("impl Dom for {impl_ty} {{\n\tfn values(rec: u32) -> Vec<Self> {{\n{rec_guard}"));
@@ -763,17 +828,17 @@ impl<'p> Placed<'p> {
 				}
 				s.push_str(&format!("\t\tlet sizes = [{}];\n", (0..fields.len()).map(|k| format!("d{k}.len()")).collect::<Vec<_>>().join(", ")));
 				s.push_str("\t\tlet mut out = Vec::new();\n\t\tfor ix in rt::tuples(&sizes) {\n");
-				s.push_str(&format!("\t\t\tout.push({id} {{ {} }});\n", (0..fields.len()).map(|k| format!("{}: d{k}[ix[{k}]].clone()", field_name(k))).collect::<Vec<_>>().join(", ")));
+				s.push_str(&format!("\t\t\tout.push({id} {{ {} }});\n", (0..fields.len()).map(|k| format!("{}: d{k}[ix[{k}]].clone()", self.field_names(i, k).0)).collect::<Vec<_>>().join(", ")));
 				s.push_str("\t\t}\n\t\tout\n\t}\n\tfn describe(&self, o: &mut String) {\n\t\to.push_str(\"{\\\"rec\\\":[\");\n");
 				let mut first = true;
 				for (k, f) in fields.iter().enumerate() {
 					if *f == FieldTy::Skipped {
 						continue; // not part of the data model
 					}
-					let n = field_name(k);
+					let (rn, n) = self.field_names(i, k);
 					let sep = if first { "" } else { "," };
 					first = false;
-					s.push_str(&format!("\t\to.push_str(\"{sep}[\\\"{n}\\\",\");\n\t\t{}\n\t\to.push(']');\n", self.field_dom(f).1.replace("$x", &format!("&self.{n}"))));
+					s.push_str(&format!("\t\to.push_str(\"{sep}[\\\"{n}\\\",\");\n\t\t{}\n\t\to.push(']');\n", self.field_dom(f).1.replace("$x", &format!("&self.{rn}"))));
 				}
 				s.push_str("\t\to.push_str(\"]}\");\n\t}\n}\n");
 			}
@@ -784,16 +849,16 @@ impl<'p> Placed<'p> {
 				s.push_str(&format!("\tfn describe(&self, o: &mut String) {{\n\t\to.push_str(\"{{\\\"nt\\\":\");\n\t\t{}\n\t\to.push('}}');\n\t}}\n}}\n", self.field_dom(field).1.replace("$x", "&self.0")));
 			}
 			Def::UnitEnum { symbols } => {
-				let syms: Vec<String> = (0..*symbols).map(|k| ((b'A' + k as u8) as char).to_string()).collect();
+				let syms: Vec<(String, String)> = (0..*symbols).map(|k| self.symbol_names(i, k)).collect();
 				s.push_str(&format!("{}\n{ns_attr_line}{vis}enum {id} {{\n", Self::DERIVES));
-				for sy in &syms {
+				for (sy, _) in &syms {
 					s.push_str(&format!("\t{sy},\n"));
 				}
 				s.push_str("}\n");
-				s.push_str(&format!("impl Dom for {id} {{\n\tfn values(_: u32) -> Vec<Self> {{\n\t\tvec![{}]\n\t}}\n", syms.iter().map(|sy| format!("{id}::{sy}")).collect::<Vec<_>>().join(", ")));
+				s.push_str(&format!("impl Dom for {id} {{\n\tfn values(_: u32) -> Vec<Self> {{\n\t\tvec![{}]\n\t}}\n", syms.iter().map(|(sy, _)| format!("{id}::{sy}")).collect::<Vec<_>>().join(", ")));
 				s.push_str("\tfn describe(&self, o: &mut String) {\n\t\tmatch self {\n");
-				for sy in &syms {
-					s.push_str(&format!("\t\t\t{id}::{sy} => o.push_str(\"{{\\\"sym\\\":\\\"{sy}\\\"}}\"),\n"));
+				for (sy, name) in &syms {
+					s.push_str(&format!("\t\t\t{id}::{sy} => o.push_str(\"{{\\\"sym\\\":\\\"{name}\\\"}}\"),\n"));
 				}
 				s.push_str("\t\t}\n\t}\n}\n");
 			}
@@ -806,17 +871,18 @@ impl<'p> Placed<'p> {
 				let mut vals = String::new();
 				let mut desc = String::new();
 				for p in 0..total {
+					let vp = self.variant_names(i, p).0;
 					if Some(p) == *unit_at {
-						s.push_str(&format!("\t#[serde(rename = \"Null\")]\n\tV{p},\n"));
-						vals.push_str(&format!("\t\tout.push({id}::V{p});\n"));
-						desc.push_str(&format!("\t\t\t{id}::V{p} => o.push_str(\"{{\\\"var\\\":[\\\"Null\\\",{{\\\"u\\\":0}}]}}\"),\n"));
+						s.push_str(&format!("\t#[serde(rename = \"Null\")]\n\t{vp},\n"));
+						vals.push_str(&format!("\t\tout.push({id}::{vp});\n"));
+						desc.push_str(&format!("\t\t\t{id}::{vp} => o.push_str(\"{{\\\"var\\\":[\\\"Null\\\",{{\\\"u\\\":0}}]}}\"),\n"));
 						continue;
 					}
 					let k = pos.iter().position(|&q| q == p).unwrap();
 					let f = &variants[k];
 					if *f == FieldTy::Skipped {
-						s.push_str(&format!("\t#[avro_schema(skip)]\n\t#[serde(skip)]\n\tV{p}(rt::NoSchema),\n"));
-						desc.push_str(&format!("\t\t\t{id}::V{p}(_) => o.push_str(\"{{\\\"skipped-variant\\\":0}}\"),\n"));
+						s.push_str(&format!("\t#[avro_schema(skip)]\n\t#[serde(skip)]\n\t{vp}(rt::NoSchema),\n"));
+						desc.push_str(&format!("\t\t\t{id}::{vp}(_) => o.push_str(\"{{\\\"skipped-variant\\\":0}}\"),\n"));
 						continue;
 					}
 					if *f == FieldTy::Param {
@@ -836,17 +902,17 @@ impl<'p> Placed<'p> {
 						for n in names.iter().skip(1) {
 							attr.push_str(&format!(", alias = \"{n}\""));
 						}
-						s.push_str(&format!("\t#[serde({attr})]\n\tV{p}(T),\n"));
-						vals.push_str(&format!("\t\tfor x in <T as Dom>::values(rec) {{\n\t\t\tout.push({id}::V{p}(x));\n\t\t}}\n"));
-						desc.push_str(&format!("\t\t\t{id}::V{p}(x) => {{\n\t\t\t\to.push_str(\"{{\\\"varT\\\":\");\n\t\t\t\tDom::describe(x, o);\n\t\t\t\to.push('}}');\n\t\t\t}}\n"));
+						s.push_str(&format!("\t#[serde({attr})]\n\t{vp}(T),\n"));
+						vals.push_str(&format!("\t\tfor x in <T as Dom>::values(rec) {{\n\t\t\tout.push({id}::{vp}(x));\n\t\t}}\n"));
+						desc.push_str(&format!("\t\t\t{id}::{vp}(x) => {{\n\t\t\t\to.push_str(\"{{\\\"varT\\\":\");\n\t\t\t\tDom::describe(x, o);\n\t\t\t\to.push('}}');\n\t\t\t}}\n"));
 						continue;
 					}
 					let branch = self.variant_branch(f, i, p).unwrap_or_else(|| "INVALID".into());
 					let (a, t) = self.field_src(f, lt);
-					s.push_str(&format!("\t#[serde(rename = \"{branch}\")]\n\tV{p}({a}{t}),\n"));
-					vals.push_str(&format!("\t\tfor x in {} {{\n\t\t\tout.push({id}::V{p}(x));\n\t\t}}\n", self.field_dom(f).0));
+					s.push_str(&format!("\t#[serde(rename = \"{branch}\")]\n\t{vp}({a}{t}),\n"));
+					vals.push_str(&format!("\t\tfor x in {} {{\n\t\t\tout.push({id}::{vp}(x));\n\t\t}}\n", self.field_dom(f).0));
 					desc.push_str(&format!(
-						"\t\t\t{id}::V{p}(x) => {{\n\t\t\t\to.push_str(\"{{\\\"var\\\":[\\\"{branch}\\\",\");\n\t\t\t\t{}\n\t\t\t\to.push_str(\"]}}\");\n\t\t\t}}\n",
+						"\t\t\t{id}::{vp}(x) => {{\n\t\t\t\to.push_str(\"{{\\\"var\\\":[\\\"{branch}\\\",\");\n\t\t\t\t{}\n\t\t\t\to.push_str(\"]}}\");\n\t\t\t}}\n",
 						self.field_dom(f).1.replace("$x", "x")
 					));
 				}
